@@ -163,7 +163,7 @@ PROPS = {
                  repo_srcs=[("src/fitter/cholesky_solve.c", ["-Dpthread_create=vs_create", "-Dpthread_join=vs_join", "-Dpthread_mutex_lock=vs_lock", "-Dpthread_mutex_unlock=vs_unlock",
                                                             "-Dpthread_cond_wait=vs_cond_wait", "-Dpthread_cond_broadcast=vs_broadcast", "-Dpthread_exit=vs_exit", "-Dsched_setaffinity=vs_setaffinity"])],
                  quick=64, thorough=640, names=["sched_dfs", "sched_pct"], leaks=False, no_isolate_rerun=True),
-               U("c12_tsan", "c12_tsan.cpp", variant="tsan", quick=48, thorough=4000, names=["tsan_fits"], leaks=False, no_isolate_rerun=True, workers=dict(quick=4, thorough=8))],
+               U("c12_tsan", "c12_tsan.cpp", variant="tsan", kind="tsan", quick=48, thorough=4000, names=["tsan_fits"], leaks=False, no_isolate_rerun=True, workers=dict(quick=4, thorough=8), timeout=dict(quick=420, thorough=3 * 3600))],
         rule="a case = one line-search problem (1..6 unknowns, 0..6 infeasible components => 2..8 trial steps, 1..4 workers) and a set of schedules: sched_dfs enumerates the tree of "
              "choice sequences (budget 2500 leaves quick / 450000 thorough; 'exhaustive_tree' when the tree was finished), sched_pct runs 300 (3000) PCT/random schedules. evaluations "
              "counts problems; class 'schedules' counts executed schedules. Non-trivial schedule: a worker finished a computation while the coordinator was between unlock and wait, "
